@@ -186,8 +186,13 @@ func checkC01(c C01Case, o *Obs) error {
 	o.Class("canonical")
 	var all bytes.Buffer
 	var keeper marshalKeeper
+	var fields [][]byte
 	for i, r := range c.Recs {
-		fa := &fasta.Fasta{Name: bytes.Clone(r.Name), Sequence: bytes.Clone(seqs[i])}
+		fields = append(fields, r.Name, seqs[i])
+	}
+	ar := newArena(fields...)
+	for i, r := range c.Recs {
+		fa := &fasta.Fasta{Name: ar.field(2 * i), Sequence: ar.field(2*i + 1)}
 		var w bytes.Buffer
 		if err := fa.Write(&w); err != nil {
 			return fmt.Errorf("record %d: Write to a buffer failed: %v", i, err)
@@ -214,6 +219,9 @@ func checkC01(c C01Case, o *Obs) error {
 	}
 	(&fasta.Fasta{Name: []byte("another record"), Sequence: seqOfLen(97)}).MarshalText()
 	if err := keeper.verify(); err != nil {
+		return err
+	}
+	if err := ar.verify(); err != nil {
 		return err
 	}
 	got, err := readFastaAll(all.Bytes())
